@@ -62,7 +62,8 @@ type open struct {
 }
 
 type builder struct {
-	pool  []starlark.Value // mutable containers / hosts in creation order
+	tuples []starlark.Tuple // tuples in creation order (for slices that share their storage)
+	pool   []starlark.Value // mutable containers / hosts in creation order
 	stack []open           // currently open (ancestors)
 	// statistics
 	Shared, Cyclic, ViaTuple int
@@ -129,7 +130,20 @@ func (b *builder) build(d V, hashable bool) starlark.Value {
 		for i := 0; i < d.FA; i++ {
 			t = append(t, starlark.MakeInt(d.Base+d.FB+i))
 		}
+		b.tuples = append(b.tuples, t)
 		return t
+	case "tslice":
+		// a slice t[start:end] of an earlier tuple: same storage, as Tuple.Slice returns it
+		if len(b.tuples) == 0 {
+			return starlark.Tuple{}
+		}
+		t := b.tuples[((d.Ref%len(b.tuples))+len(b.tuples))%len(b.tuples)]
+		start := 0
+		if len(t) > 0 {
+			start = d.FB % (len(t) + 1)
+		}
+		end := start + d.N%(len(t)-start+1)
+		return t[start:end]
 	case "ref":
 		if hashable || len(b.pool) == 0 {
 			return starlark.None
@@ -694,6 +708,9 @@ func gen(t *rapid.T, depth int, o GenOpts, big *int) V {
 		return genInt(t)
 	default:
 		if o.Refs {
+			if rapid.IntRange(0, 2).Draw(t, "tslice") == 2 {
+				return V{K: "tslice", Ref: rapid.IntRange(0, 6).Draw(t, "tref"), FB: rapid.SampledFrom([]int{0, 0, 1, 2}).Draw(t, "tstart"), N: rapid.IntRange(0, 9).Draw(t, "tlen")}
+			}
 			return V{K: "ref", Ref: rapid.IntRange(0, 12).Draw(t, "ref")}
 		}
 		return genStr(t, "str", o)
@@ -709,7 +726,7 @@ func CountLeaves(d V) int {
 			n += CountLeaves(e)
 		}
 		return n
-	case "ref":
+	case "ref", "tslice":
 		return 0
 	}
 	return 1
@@ -725,7 +742,7 @@ func ReplaceLeaf(d V, idx *int, nv V) V {
 			out.E[i] = ReplaceLeaf(e, idx, nv)
 		}
 		return out
-	case "ref":
+	case "ref", "tslice":
 		return d
 	}
 	if *idx == 0 {
